@@ -71,6 +71,8 @@ def draw_cfg(rng, engine):
         'p_check': rng.choice([0.1, 0.3]),
         'p_alias': rng.choice([0.03, 0.08, 0.15]),
         'yield_mean': rng.choice([30, 200, 1500, 8000]),
+        'hstride': 512,
+        'rslots': 64,
         'p_repeat': rng.choice([0.0, 0.08, 0.2, 0.35]),
     }
     return cfg
@@ -129,12 +131,12 @@ class GenSource(object):
 
     def _mutate_result(self, sim, task, op_id):
         """A documented mutator applied by the caller to an object it received from op_id."""
-        from .pool import HSTRIDE
+        HSTRIDE = self.cfg['hstride']
         pool, rng = sim.pool, self.rng
         c = []
         for kind in ('Angle', 'Epoch'):
             for h, o in pool.mutable(kind, task):
-                if op_id * HSTRIDE <= h < op_id * HSTRIDE + 32:
+                if op_id * HSTRIDE <= h < op_id * HSTRIDE + self.cfg['rslots']:
                     c.append((h, kind))
         if not c:
             return None
@@ -151,6 +153,39 @@ class GenSource(object):
             return {'name': 'Angle.set_radians', 'recv': {'h': h}, 'args': [g.num(-6, 6)], 'kwargs': {}}
         return {'name': 'Epoch.set', 'recv': {'h': h}, 'args': [g.f(2.0e6, 2.9e6)], 'kwargs': {}}
 
+    def _edit_list(self, sim, task, op_id):
+        """The caller edits one numeric leaf of a list it built for op_id."""
+        HSTRIDE = self.cfg['hstride']
+        pool, rng = sim.pool, self.rng
+        c = []
+        for h in sorted(pool.handles):
+            if op_id * HSTRIDE + self.cfg['rslots'] <= h < (op_id + 1) * HSTRIDE and pool.owner.get(h) == task:
+                o = pool.handles[h]
+                if isinstance(o, list):
+                    paths = []
+
+                    def walk(x, p, d):
+                        for i, y in enumerate(x):
+                            if isinstance(y, bool):
+                                continue
+                            if isinstance(y, (int, float)):
+                                paths.append(p + [i])
+                            elif isinstance(y, list) and d < 3:
+                                walk(y, p + [i], d + 1)
+                    walk(o, [], 0)
+                    if paths:
+                        c.append((h, paths))
+        if not c:
+            return None
+        h, paths = c[rng.randrange(len(c))]
+        path = paths[rng.randrange(len(paths))]
+        o = pool.handles[h]
+        for i in path:
+            o = o[i]
+        new = float(o) * rng.choice([0.5, 0.9, 1.1, 2.0]) + rng.choice([-1.0, 0.25, 3.0])
+        return {'name': '@edit_list', 'recv': None, 'args': [{'h': h}], 'kwargs': {}, 'path': path,
+                'value': float(new).hex()}
+
     def make_op(self, sim, task, depth):
         rng = self.rng
         pool = sim.pool
@@ -161,6 +196,10 @@ class GenSource(object):
                 op = self._mutate_result(sim, task, val)
                 if op is not None:
                     sim.count('probe.mutator_on_fresh_result_then_repeat')
+                    return self._finish(op, task, depth)
+            elif what == 'edit':
+                op = self._edit_list(sim, task, val)
+                if op is not None:
                     return self._finish(op, task, depth)
             elif what == 'repeat':
                 sim.count('probe.call_repeated_with_equal_arguments')
@@ -187,12 +226,21 @@ class GenSource(object):
                 sim.count('probe.' + p)
             core = {'name': name, 'recv': recv, 'args': args, 'kwargs': kwargs}
             op = self._finish(core, task, depth)
+            has_list = any(isinstance(x, dict) and x.get('mk') == 'list' for x in args)
             if e.effect == 'pure' and rng.random() < self.cfg['p_repeat']:
                 rep = {'name': name, 'recv': copy.deepcopy(recv), 'args': copy.deepcopy(args),
                        'kwargs': copy.deepcopy(kwargs)}
-                if rng.random() < 0.75:
+                if has_list and rng.random() < 0.6:
+                    # the caller edits one of the lists it passed, then calls again with the SAME list objects
+                    rep['args'] = [{'h': op['id'] * self.cfg['hstride'] + self.cfg['rslots'] + x['slot']} if isinstance(x, dict) and 'mk' in x
+                                   else x for x in rep['args']]
+                    q.append(('edit', op['id']))
+                elif rng.random() < 0.75:
                     q.append(('mutate', op['id']))
                 q.append(('repeat', rep))
+            elif has_list and e.effect in ('capture', 'mutator_capture') and rng.random() < 0.3:
+                # the caller goes on using (editing) the list it handed to a constructor / set()
+                q.append(('edit', op['id']))
             return op
         g = G(rng, pool, task, 0.0)
         a, k = g.angle_ctor_args()
@@ -205,7 +253,7 @@ class GenSource(object):
         op['task'] = task
         op['clock'] = self._clock_script()
         pts = []
-        if op['name'] != '@alias':
+        if not op['name'].startswith('@'):
             est = max(4, self.est(op['name']))
 
             def step():
